@@ -193,6 +193,21 @@ class Engine:
         self.n_calls_resolved = 0
         self.n_calls_total = 0
 
+    def private_helper(self, f: FunctionInfo) -> bool:
+        """A private module-level function, or a private method that is defined exactly once in the package and is not one of
+        the hooks the operator base class declares: every caller is a call site of this package (A5)."""
+        if f.parent is not None or isinstance(f.node, ast.Lambda) or not f.name.startswith("_") or f.name.startswith("__"):
+            return False
+        if f.cls is None:
+            return True
+        key = "#private_methods"
+        cache = self.__dict__.setdefault(key, {})
+        if f.name not in cache:
+            n_defs = sum(1 for c in self.idx.classes.values() if f.name in c.methods)
+            base = self.idx.operator_base()
+            cache[f.name] = n_defs == 1 and f.name not in base.methods
+        return cache[f.name]
+
     # ------------------------------------------------------------------------------ functions passed as arguments
     def _function_arguments(self) -> Dict[Tuple[str, str], Optional[List[FunctionInfo]]]:
         """(qualified function, parameter) -> the package functions passed for that parameter, for PRIVATE functions that
@@ -237,6 +252,9 @@ class Engine:
                         q = idx.resolve_name(g.module, arg.id)
                         if q and q in idx.func_by_qual:
                             tgt = idx.func_by_qual[q]
+                    elif isinstance(arg, ast.Attribute) and arg.attr in self.pkg_method_names and not (
+                            isinstance(arg.value, ast.Name) and idx.resolve_name(g.module, arg.value.id) is not None):
+                        tgt = "method:" + arg.attr  # a bound method of some operator: self.base._matmul
                     seen_site.add(key)
                     if tgt is None:
                         out[key] = None
@@ -455,6 +473,11 @@ class FuncAnalysis:
             return AV(frozenset(), T_OP, T_UNK, o)
         return AV(t, ty, T_UNK, o)
 
+    def _first_param(self) -> Optional[str]:
+        a = self.fn.node.args
+        names = [x.arg for x in list(a.posonlyargs) + list(a.args)]
+        return names[0] if names else None
+
     def initial_env(self) -> Dict[str, AV]:
         env: Dict[str, AV] = {}
         fn = self.fn
@@ -478,7 +501,7 @@ class FuncAnalysis:
                 continue
             ty_ = T_SCALAR if p in self.scalar_params else self._param_ty(p)
             av0 = self._param_av(p, ty_)
-            if ty_ == T_UNK and fn.cls is None and fn.parent is None and fn.name.startswith("_") and not fn.name.startswith("__"):
+            if ty_ == T_UNK and self.eng.private_helper(fn):
                 pt = self.eng.param_types.get((fn.qualname, p))
                 if pt is not None and pt[0] in (T_TENSOR, T_OP):
                     av0 = self._param_av(p, pt[0])
@@ -1198,8 +1221,18 @@ class FuncAnalysis:
         if name in env and env[name].ty != T_CALL:
             passed = eng.fn_args.get((self.fn.qualname, name))
             if passed:
-                # a private function that calls its parameter, and every caller hands it a package function
-                return self._apply_summary(list(passed), None, e, args, kwargs, env)
+                # a private function that calls its parameter, and every caller hands it a package function / bound method
+                outs = []
+                funcs = [f_ for f_ in passed if not isinstance(f_, str)]
+                if funcs:
+                    outs.append(self._apply_summary(funcs, None, e, args, kwargs, env))
+                for mn in [f_[len("method:"):] for f_ in passed if isinstance(f_, str)]:
+                    impls = self.idx.implementations(mn)
+                    if not impls:
+                        return self._call_unknown_callable(env[name], allargs)
+                    recv_av = AV(frozenset(), T_OP, T_UNK, env[name].prov | env[name].oprov)  # the operator the method is bound to
+                    outs.append(self._apply_summary(impls, recv_av, e, args, kwargs, env))
+                return join_all(outs) if outs else FRESH_U
             return self._call_unknown_callable(env[name], allargs)
         nested = self._find_nested(name)
         if nested is not None:
@@ -1282,6 +1315,12 @@ class FuncAnalysis:
             if k in env:
                 return self._call_unknown_callable(env[k], allargs)
             return self._call_unknown_callable(recv, allargs)
+        if isinstance(recv_expr, ast.Name) and self.fn.cls is not None and self.fn.is_classmethod() and self.fn.parent is None \
+                and recv_expr.id == self._first_param():
+            # cls.helper(...) inside a classmethod: the static / class methods of (a subclass of) the enclosing class
+            impls = [m for m in eng.cha(self.fn.cls, mname) if m.is_staticmethod() or m.is_classmethod()]
+            if impls and len(impls) == len(eng.cha(self.fn.cls, mname)):
+                return self._apply_summary(impls, None, e, args, kwargs, env)
         # cls(...) / self.__class__(...) : constructor of (a subclass of) the enclosing class
         if mname == "__class__":
             held = frozenset().union(*[a.allprov for a in allargs]) if allargs else frozenset()
@@ -1478,8 +1517,7 @@ class FuncAnalysis:
             s = self.eng.summary_of(callee)
             self.deps.add(callee.qualname)
             binding = self._bind(callee, recv, args, kwargs, flags, e)
-            if callee.cls is None and callee.parent is None and callee.name.startswith("_") and not callee.name.startswith("__") \
-                    and not isinstance(callee.node, ast.Lambda):
+            if self.eng.private_helper(callee):
                 for p_, av_ in binding.items():
                     if av_.ty == T_BOT:
                         continue
